@@ -31,8 +31,8 @@ impl TimeoutChecker {
 /// Verification hook: deterministic timeouts.
 ///
 /// When a firing point is set for the current thread, the n-th call to `check_timeout`
-/// (and every later one) reports a timeout, regardless of the clock. The number of calls is
-/// counted so that the check points of a scan can be enumerated.
+/// (and every later one, unless the "once" mode is set) reports a timeout, regardless of the
+/// clock. The number of calls is counted so that the check points of a scan can be enumerated.
 #[cfg(boreal_verif)]
 #[doc(hidden)]
 pub mod verif {
@@ -42,6 +42,13 @@ pub mod verif {
         static FIRE_AT: Cell<Option<u64>> = const { Cell::new(None) };
         static CHECKS: Cell<u64> = const { Cell::new(0) };
         static COUNTING: Cell<bool> = const { Cell::new(false) };
+        static ONCE: Cell<bool> = const { Cell::new(false) };
+    }
+
+    /// In "once" mode only the n-th check fires, as with the real checker that looks at the
+    /// clock on some calls only: a timeout that is not propagated at once is not seen again.
+    pub fn set_once(once: bool) {
+        ONCE.with(|v| v.set(once));
     }
 
     /// Set the firing point (1-based index of the check that times out), reset the counter.
@@ -68,7 +75,8 @@ pub mod verif {
             v.set(n);
             n
         });
-        Some(FIRE_AT.with(Cell::get).is_some_and(|at| n >= at))
+        let once = ONCE.with(Cell::get);
+        Some(FIRE_AT.with(Cell::get).is_some_and(|at| if once { n == at } else { n >= at }))
     }
 }
 
